@@ -48,6 +48,16 @@ def rand_shape(rnd):
     return ("circ", [round(rnd.uniform(5, 50), 1), round(rnd.uniform(5, 50), 1), r])
 
 
+def rand_shape_c13(rnd):
+    """C13 is about the list, not the geometry: now and then an open-ended region (an infinite coordinate, which JSON clients write
+    as 1e999) - equal to itself, so the list model can still be compared."""
+    kind, p = rand_shape(rnd)
+    if rnd.random() < 0.05:
+        p = list(p)
+        p[rnd.randrange(len(p))] = rnd.choice([float("inf"), float("-inf")]) if kind == "rect" else float("inf")
+    return (kind, p)
+
+
 # ======================================================================================= C13
 
 class C13(Monitor):
@@ -101,13 +111,13 @@ class C13(Monitor):
                     other = rnd.choice(ids)
                     rid = (other.upper() if other.upper() != other else other.title()) if isinstance(other, str) and other \
                         else (str(other) if isinstance(other, int) else "ID%d" % n)
-                steps.append(["api", "addExcludeRegion", payload_of(rand_shape(rnd), rid), anon])
+                steps.append(["api", "addExcludeRegion", payload_of(rand_shape_c13(rnd), rid), anon])
                 if rid is not None and not anon:
                     ids.append(rid)
             elif t < 0.35 and ids:
-                steps.append(["api", "addExcludeRegion", payload_of(rand_shape(rnd), rnd.choice(ids)), anon])
+                steps.append(["api", "addExcludeRegion", payload_of(rand_shape_c13(rnd), rnd.choice(ids)), anon])
             elif t < 0.45 and ids:
-                steps.append(["api", "updateExcludeRegion", payload_of(rand_shape(rnd), rnd.choice(ids)), anon])
+                steps.append(["api", "updateExcludeRegion", payload_of(rand_shape_c13(rnd), rnd.choice(ids)), anon])
             elif t < 0.5:
                 # a point-shaped region replaced by the other type at the very same point (each "contains" the other), and an
                 # update that repeats the entry verbatim
@@ -123,14 +133,14 @@ class C13(Monitor):
                     steps.append(["api", "updateExcludeRegion", payload_of(b, rid), False])
                 ids.append(rid)
             elif t < 0.57:
-                steps.append(["api", "updateExcludeRegion", payload_of(rand_shape(rnd), rnd.choice(["nope", "id999", None])), anon])
+                steps.append(["api", "updateExcludeRegion", payload_of(rand_shape_c13(rnd), rnd.choice(["nope", "id999", None])), anon])
             elif t < 0.64:
-                d = payload_of(rand_shape(rnd), rnd.choice(ids) if ids and rnd.random() < 0.5 else "zz")
+                d = payload_of(rand_shape_c13(rnd), rnd.choice(ids) if ids and rnd.random() < 0.5 else "zz")
                 d["type"] = rnd.choice(["TriangularRegion", "", None, "rectangularregion"])
                 steps.append(["api", rnd.choice(["addExcludeRegion", "updateExcludeRegion"]), d, anon])
             elif t < 0.66:
                 steps.append(["api", rnd.choice(["renameExcludeRegion", "", "addexcluderegion"]),
-                              payload_of(rand_shape(rnd), rnd.choice(ids) if ids and rnd.random() < 0.5 else "q%d" % n), anon])
+                              payload_of(rand_shape_c13(rnd), rnd.choice(ids) if ids and rnd.random() < 0.5 else "q%d" % n), anon])
             elif t < 0.72:
                 steps.append(["api", "deleteExcludeRegion", dict(id=rnd.choice(["nope", None] + ids[-1:])), anon])
             elif t < 0.8 and ids:
@@ -265,7 +275,7 @@ class C13(Monitor):
             msgs = p.pm.take()
             if after != model:
                 bad(i, st, "list-differs-from-model", "after the step: plugin %r, model %r" % (after, model))
-            ids = [r["id"] for r in after]
+            ids = [r.get("id") for r in after]
             if any(ids.count(x) > 1 for x in ids):
                 bad(i, st, "duplicate-ids", repr(ids))
             if after != before:
@@ -528,7 +538,7 @@ class C12(Monitor):
                 stats["c12_deletes"] += 1
                 if not (isinstance(resp, tuple) and resp[1] == 409):
                     bad(i, st, "delete-accepted-during-print", "response %r" % (resp,))
-            if cmd == "addExcludeRegion" and any(r["id"] == data.get("id") for r in before):
+            if cmd == "addExcludeRegion" and any(r.get("id") == data.get("id") for r in before):
                 stats["c12_adds_with_existing_id"] += 1
                 if not (isinstance(resp, tuple) and resp[1] == 409):
                     bad(i, st, "add-with-existing-id-accepted", "response %r" % (resp,))
